@@ -4,7 +4,7 @@
 
   * `Parse.okErr`, `Parse.okErrP`            the error values `parseNumber` / `parse` can return
   * `Parse.finish_total`, `Parse.model_total`, `Parse.parseNumber_total'`
-                                             `parseNumber` returns (no panic) under `hred`, `d.size < 2^63`
+                                             `parseNumber` returns (no panic) when `d.size < 2^63`
   * `Parse.tailNum`, `Parse.parseRest`       the number branch / the part of `parse` after the sign
   * `Parse.parse_eq_rest`                    `Gen.parse` = sign handling ; `parseRest`   (by `rfl`)
   * `Parse.parseRest_0/_3/_8/_other`         `parseRest` on inputs of length 0, 3, 8, other
@@ -32,8 +32,7 @@ namespace Parse
 
 def okErr (e : Go.Err) : Prop := e = .nil ∨ e = .parseNumberSyntaxError ∨ e = .parseNumberRangeError
 
-theorem finish_total (g : Globals) (neg : Bool) (s : S2)
-    (hred : ∀ rm neg sig exp trunc, ∃ r, Gen.RoundingMode.reduce128 rm neg sig exp trunc = .ok r) :
+theorem finish_total (g : Globals) (neg : Bool) (s : S2) :
     ∃ r e, finish g neg s = .ok (r, e) ∧ okErr e := by
   unfold finish
   by_cases h1 : ((!s.caneof) || (!s.sawdig)) = true
@@ -50,20 +49,19 @@ theorem finish_total (g : Globals) (neg : Bool) (s : S2)
   by_cases h4 : decide (e < (-6215 : Int64)) = true
   · rw [if_pos h4]; exact ⟨_, _, rfl, Or.inl rfl⟩
   rw [if_neg h4]
-  obtain ⟨r, hr⟩ := hred g.DefaultRoundingMode neg s.sig (Go.conv (e + (6176 : Int64)) : Int16) s.trunc
+  obtain ⟨r, hr⟩ := reduce128_call g.DefaultRoundingMode neg s.sig (Go.conv (e + (6176 : Int64)) : Int16) s.trunc h2
   rw [hr]
   show ∃ r' e, (if decide (r.2 > (12287 : Int16)) = true then _ else _) = Except.ok (r', e) ∧ okErr e
   split
   · exact ⟨_, _, rfl, Or.inr (Or.inr rfl)⟩
   · exact ⟨_, _, rfl, Or.inl rfl⟩
 
-theorem model_total (g : Globals) (cs : List UInt8) (neg sep : Bool)
-    (hred : ∀ rm neg sig exp trunc, ∃ r, Gen.RoundingMode.reduce128 rm neg sig exp trunc = .ok r) :
+theorem model_total (g : Globals) (cs : List UInt8) (neg sep : Bool) :
     ∃ r e, model g cs neg sep = .ok (r, e) ∧ okErr e := by
   unfold model
   split
   · exact ⟨_, _, rfl, Or.inr (Or.inl rfl)⟩
-  · exact finish_total g neg _ hred
+  · exact finish_total g neg _
 
 
 
@@ -448,11 +446,10 @@ theorem eqFold_inf (cs : List UInt8) :
 /-! ## totality of `parse` -/
 
 theorem parseNumber_total' (g : Globals) (d : Go.Bytes) (neg sep : Bool)
-    (hred : ∀ rm neg sig exp trunc, ∃ r, Gen.RoundingMode.reduce128 rm neg sig exp trunc = .ok r)
     (hsz : d.size < 2^63) :
     ∃ r e, Gen.parseNumber g d neg sep = .ok (r, e) ∧ okErr e := by
-  rw [parseNumber_eq_model g d neg sep hred hsz]
-  exact model_total g d.toList neg sep hred
+  rw [parseNumber_eq_model g d neg sep hsz]
+  exact model_total g d.toList neg sep
 
 def okErrP (e : Go.Err) : Prop := e = .nil ∨ e = .parseSyntaxError ∨ e = .parseRangeError
 
@@ -468,10 +465,9 @@ theorem tailNum_of_ok (g : Globals) (d : Go.Bytes) (neg : Bool) (r : Gen.Decimal
   cases e <;> rfl
 
 theorem tailNum_total (g : Globals) (d : Go.Bytes) (neg : Bool)
-    (hred : ∀ rm neg sig exp trunc, ∃ r, Gen.RoundingMode.reduce128 rm neg sig exp trunc = .ok r)
     (hsz : d.size < 2^63) :
     ∃ r e, tailNum g d neg = .ok (r, e) ∧ okErrP e := by
-  obtain ⟨r, e, h1, h2⟩ := parseNumber_total' g d neg true hred hsz
+  obtain ⟨r, e, h1, h2⟩ := parseNumber_total' g d neg true hsz
   refine ⟨r, mapErr e, tailNum_of_ok g d neg r e h1, ?_⟩
   rcases h2 with h | h | h <;> subst h
   · exact Or.inl rfl
@@ -479,7 +475,6 @@ theorem tailNum_total (g : Globals) (d : Go.Bytes) (neg : Bool)
   · exact Or.inr (Or.inr rfl)
 
 theorem restM_total (g : Globals) (op : UInt64) (body : List UInt8) (neg : Bool)
-    (hred : ∀ rm neg sig exp trunc, ∃ r, Gen.RoundingMode.reduce128 rm neg sig exp trunc = .ok r)
     (hsz : body.length < 2^63) :
     ∃ r e, restM g op body neg = .ok (r, e) ∧ okErrP e := by
   unfold restM
@@ -489,14 +484,13 @@ theorem restM_total (g : Globals) (op : UInt64) (body : List UInt8) (neg : Bool)
     · exact ⟨_, _, rfl, Or.inl rfl⟩
     split
     · exact ⟨_, _, rfl, Or.inl rfl⟩
-    · exact tailNum_total g _ neg hred (by simp)
+    · exact tailNum_total g _ neg (by simp)
   · split
     · exact ⟨_, _, rfl, Or.inl rfl⟩
-    · exact tailNum_total g _ neg hred (by simp)
-  · exact tailNum_total g _ neg hred (by simpa using hsz)
+    · exact tailNum_total g _ neg (by simp)
+  · exact tailNum_total g _ neg (by simpa using hsz)
 
 theorem parseM_total (g : Globals) (op : UInt64) (cs : List UInt8)
-    (hred : ∀ rm neg sig exp trunc, ∃ r, Gen.RoundingMode.reduce128 rm neg sig exp trunc = .ok r)
     (hsz : cs.length < 2^63) :
     ∃ r e, parseM g op cs = .ok (r, e) ∧ okErrP e := by
   unfold parseM
@@ -505,10 +499,10 @@ theorem parseM_total (g : Globals) (op : UInt64) (cs : List UInt8)
   · rename_i c body
     simp only [List.length_cons] at hsz
     split
-    · exact restM_total g op body false hred (by omega)
+    · exact restM_total g op body false (by omega)
     split
-    · exact restM_total g op body true hred (by omega)
-    · exact restM_total g op (c :: body) false hred (by simpa using hsz)
+    · exact restM_total g op body true (by omega)
+    · exact restM_total g op (c :: body) false (by simpa using hsz)
 
 /-! ## the special names -/
 
